@@ -25,7 +25,7 @@ RULE = ("scenarios {same variable, two images of one tree, tree + pickled copy} 
         "at most 1 for 3 threads, enumerated completely; thorough additionally samples bound 3 (2 threads) and bound 2 (3 threads) depth-first up to "
         "6000 / 4000 runs per shard) plus seeded random schedules of larger loads (2-4 threads on up to 4 images, 1-3 chunks "
         "each, mixed selections) and free-running threads (3-5 threads x 25-60 loads) with sleep(0) injected by a sys.monitoring LINE "
-        "callback at statement starts of array.py / xarray.py (non-deterministic, seeds logged); thorough adds 3 threads x 2 chunks coarse. evaluations = schedules executed; distinct = distinct executed interleavings "
+        "callback at statement starts of array.py / xarray.py (non-deterministic, seeds logged); thorough adds 3 threads x 2 chunks coarse (17 million orders: each of the 243 prefix subtrees sampled depth-first up to 1500 runs). evaluations = schedules executed; distinct = distinct executed interleavings "
         "(trace strings) per scenario; non-trivial = schedule in which at least two threads' file operations interleave or contend")
 ASSUMPTIONS = ["files opened through the tracing filesystem have independent positions (like real files); a shared or cached "
                "handle would be corrupted by a seek/seek/read order",
@@ -192,7 +192,9 @@ def run_case(i, tier, seed):
         for j, w in zip(jobs, want):
             assert j().tobytes() == np.ascontiguousarray(w).tobytes(), "sequential load differs from the model (C01 territory)"
         tracefs.HOOK = sched.fs_hook
-        r = sched.explore(jobs, _checker(want), prefix=p, min_depth=len(p))
+        # 3 threads x 2 chunks has 17 million coarse orders: every prefix subtree is sampled depth-first up to a run limit
+        sampled = kind == "dfs-coarse" and nthreads == 3 and nchunks == 2
+        r = sched.explore(jobs, _checker(want), prefix=p, min_depth=len(p), limit=1500 if sampled else 200000)
         if r["invalid_prefix"]:
             obs["skipped_prefixes"] += 1
             return {"sig": "prefix-not-in-tree", "evals": 0, "violations": [], "obs": obs, "nontrivial": False}
@@ -211,7 +213,7 @@ def run_case(i, tier, seed):
         inconclusive = None
         if r["hung"] and not r["deadlocks"]:
             inconclusive = "threads did not finish within the join timeout without a scheduler-visible deadlock"
-        return {"sig": f"{kind}{'-shared-handle' if 'shared_handle_schedules' in obs else ''}|{scenario}|{nthreads}x{nchunks}", "evals": r["runs"], "violations": violations, "obs": obs,
+        return {"sig": f"{kind}{'-shared-handle' if 'shared_handle_schedules' in obs else ''}{'-sampled' if sampled else ''}|{scenario}|{nthreads}x{nchunks}", "evals": r["runs"], "violations": violations, "obs": obs,
                 "inconclusive": inconclusive,
                 "sample": {"scenario": scenario, "threads": nthreads, "chunks_per_thread": nchunks, "prefix": p,
                            "schedules_in_this_subtree": r["runs"], "max_depth": r["max_depth"]} if r["runs"] > 1 else None}
